@@ -5,6 +5,7 @@ import (
 	"go/ast"
 	"go/token"
 	"go/types"
+	"sort"
 	"strings"
 )
 
@@ -541,13 +542,13 @@ func (fx *Fx) havocMods(st *State, ms *modSet) {
 	if ms.all {
 		st.havocAllHeaps()
 	} else {
-		for k := range ms.heaps {
+		for _, k := range sortedBoolKeys(ms.heaps) {
 			if k == "LK" || k == "ONCE" {
 				continue // callees leave lock state balanced (their own lock-released@exit obligation)
 			}
 			st.havocHeap(k)
 		}
-		for k := range ms.fresh {
+		for _, k := range sortedBoolKeys(ms.fresh) {
 			if ms.heaps[k] {
 				continue
 			}
@@ -922,4 +923,15 @@ func (fx *Fx) defaultCall(st *State, fn *types.Func, key string, recv *Val, args
 		out = append(out, v)
 	}
 	return out
+}
+
+// sortedBoolKeys: map keys in a fixed order, so that the constants of a query are numbered the same way on every run
+// (solver behaviour on quantified goals depends on it).
+func sortedBoolKeys(m map[string]bool) []string {
+	ks := make([]string, 0, len(m))
+	for k := range m {
+		ks = append(ks, k)
+	}
+	sort.Strings(ks)
+	return ks
 }
